@@ -285,7 +285,9 @@ impl Biclique for EdgeList {
         assert!(m > 0, "m = {m} must be greater than zero");
         assert!(n > 0, "n = {n} must be greater than zero");
 
-        let order = m + n;
+        let order = m
+            .checked_add(n)
+            .expect("a digraph has at most `usize::MAX` vertices");
 
         Self {
             arcs: (0..m)
